@@ -379,7 +379,29 @@ def self_test_capa_dp():
 
 SELF_TESTS = [self_test_capa_dp]
 
+
+def small_capa_cases(tier):
+    """Every univariate data vector over {-2,0,1,3} x (msl, maxl) x penalty scales, small n: exhaustive."""
+    import itertools
+
+    nmax = 5 if tier == "quick" else 8
+    for n in range(2, nmax + 1):
+        for msl, maxl in ((2, 2), (2, 1000), (3, 4)):
+            if n < msl:
+                continue
+            for cs, ps in ((0.0, 0.0), (0.3, 0.1), (1.0, 2.0)):
+                for x in itertools.product((-2.0, 0.0, 1.0, 3.0), repeat=n):
+                    yield {"detector": "CAPA", "coll": "L2Saving", "point": "L2Saving", "msl": msl, "maxl": maxl,
+                           "X": [[v] for v in x], "c_scale": cs, "p_scale": ps}
+
+
 FACETS = [
+    Facet(
+        name="exhaustive_small_capa", kind="enumerate", enumerate=small_capa_cases, check=check_builtin, exhaustive=True,
+        rule=("CAPA with the L2 saving on every univariate data vector over {-2,0,1,3}^n, n in 2..5 (thorough: 8), (msl,maxl) in "
+              "{(2,2),(2,1000),(3,4)}, three penalty-scale pairs incl. (0,0): exhaustive; non-trivial = >=1 anomaly"),
+        shards_quick=16, shards_thorough=16, max_samples=1,
+    ),
     Facet(
         name="table_savings",
         check=check_table,
